@@ -17,6 +17,7 @@ def run(rep, F, ctx):
     cg = CallGraph(F)
     panics.unit(rep, F, cg)
     pathrules.root_strip(rep, F, cg)
+    pathrules.join_own(rep, F, cg)
     rep.rule('FWD', 'each PathExt method body is exactly one call of the same-named free function in sys::fs::path with self and its parameters in order, result returned unmodified')
     n = fwd.static_forwarders(rep, F, 'std::path::Path', fwd.PATHEXT_TRAIT, 'sys::fs::path::{name}', False)
     rep.floor('FWD', 'PathExt forwarders', n, 21)
